@@ -185,7 +185,7 @@ func isIfaceInvoke(v ssa.Value, iface, method string) (*ssa.Call, bool) {
 		return nil, false
 	}
 	if iface != "" {
-		if n, ok := call.Call.Value.Type().(*types.Named); !ok || n.Obj().Name() != iface {
+		if n, ok := types.Unalias(call.Call.Value.Type()).(*types.Named); !ok || n.Obj().Name() != iface {
 			return nil, false
 		}
 	}
